@@ -489,7 +489,8 @@ def enum_small() -> list[dict]:
 
 
 # ---------------------------------------------------------------- entry
-GUARDS = {1: "F07a", 2: "F07b", 3: "F07c", 4: "F07d", 5: "F07e"}
+# bit 1 = dedup_total (model bound of the suffix search; F07a is fixed), bit 2 = no operation skipped
+GUARDS = {2: "F07f", 4: "F07d", 5: "F07e"}   # bit 3 was F07c (fixed)
 
 
 def main(chk: Check, replay: dict | None = None) -> int:
